@@ -41,6 +41,10 @@ func (e *Engine) StructuralObligations(want map[string]bool) ([]*Obligation, err
 				o.StructOK, o.StructMsg = e.checkStoresBeforeCalls(c.Fn, sc.Args)
 			case "no_global_stores":
 				o.StructOK, o.StructMsg = e.checkNoGlobalStores(c.Fn, sc.Args)
+			case "chan_buffered":
+				o.StructOK, o.StructMsg = checkChanBuffered(c.Fn, sc.Args)
+			case "sends_selectable":
+				o.StructOK, o.StructMsg = checkSendsSelectable(c.Fn, sc.Args)
 			default:
 				return nil, fmt.Errorf("%s:%d: unknown structural clause %q", c.File, sc.Line, sc.Kind)
 			}
@@ -674,6 +678,107 @@ func (e *Engine) checkStoresBeforeCalls(fn *ssa.Function, args []string) (bool, 
 				stack = append(stack, n.Succs...)
 			}
 		}
+	}
+	return true, ""
+}
+
+// checkChanBuffered: `chan_buffered <local>` -- the channel stored in the named local is made with a constant
+// capacity of at least one, so a goroutine that sends its single result on it can finish even when nobody receives
+// any more (the receiver took another select branch and returned).
+func checkChanBuffered(fn *ssa.Function, args []string) (bool, string) {
+	if len(args) != 1 {
+		return false, "chan_buffered needs the name of the local that holds the channel"
+	}
+	found := false
+	var visit func(f *ssa.Function) (bool, string)
+	visit = func(f *ssa.Function) (bool, string) {
+		for _, b := range f.Blocks {
+			for _, in := range b.Instrs {
+				st, ok := in.(*ssa.Store)
+				if !ok {
+					continue
+				}
+				al, ok := st.Addr.(*ssa.Alloc)
+				if !ok || al.Comment != args[0] {
+					continue
+				}
+				mc, ok := st.Val.(*ssa.MakeChan)
+				if !ok {
+					continue
+				}
+				found = true
+				c, isConst := mc.Size.(*ssa.Const)
+				if !isConst || c.Int64() < 1 {
+					return false, fmt.Sprintf("channel %s is made unbuffered (or with a non-constant capacity) at %s: a sender whose receiver has gone blocks forever", args[0], f.Prog.Fset.Position(mc.Pos()))
+				}
+			}
+		}
+		return true, ""
+	}
+	if ok, msg := visit(fn); !ok {
+		return false, msg
+	}
+	if !found {
+		return false, fmt.Sprintf("no `%s := make(chan ...)` found in %s (contract no longer binds)", args[0], fn.Name())
+	}
+	return true, ""
+}
+
+// checkSendsSelectable: `sends_selectable <chanField> <doneField>` -- every send on the channel held in struct field
+// chanField happens in a select that can also receive from the channel in field doneField (so the sender is
+// released when the receiver's loop has ended).
+func checkSendsSelectable(fn *ssa.Function, args []string) (bool, string) {
+	if len(args) != 2 {
+		return false, "sends_selectable needs <chanField> <doneField>"
+	}
+	fieldOf := func(v ssa.Value) string {
+		u, ok := v.(*ssa.UnOp)
+		if !ok {
+			return ""
+		}
+		fa, ok := u.X.(*ssa.FieldAddr)
+		if !ok {
+			return ""
+		}
+		st, ok := fa.X.Type().Underlying().(*types.Pointer)
+		if !ok {
+			return ""
+		}
+		su, ok := st.Elem().Underlying().(*types.Struct)
+		if !ok {
+			return ""
+		}
+		return su.Field(fa.Field).Name()
+	}
+	sends := 0
+	for _, b := range fn.Blocks {
+		for _, in := range b.Instrs {
+			switch in := in.(type) {
+			case *ssa.Send:
+				if fieldOf(in.Chan) == args[0] {
+					return false, fmt.Sprintf("unconditional send on %s at %s: blocks forever once the receiving loop has ended", args[0], fn.Prog.Fset.Position(in.Pos()))
+				}
+			case *ssa.Select:
+				hasSend, hasDone := false, false
+				for _, st := range in.States {
+					if st.Dir == types.SendOnly && fieldOf(st.Chan) == args[0] {
+						hasSend = true
+					}
+					if st.Dir == types.RecvOnly && fieldOf(st.Chan) == args[1] {
+						hasDone = true
+					}
+				}
+				if hasSend {
+					sends++
+					if !hasDone {
+						return false, fmt.Sprintf("send on %s in a select without a receive from %s at %s", args[0], args[1], fn.Prog.Fset.Position(in.Pos()))
+					}
+				}
+			}
+		}
+	}
+	if sends == 0 {
+		return false, fmt.Sprintf("no send on field %s found in %s (contract no longer binds)", args[0], fn.Name())
 	}
 	return true, ""
 }
